@@ -641,6 +641,10 @@ impl Pair {
 
     /// e(PointG1, PointG2)
     pub fn pair(p: &PointG1, q: &PointG2) -> ClResult<Self> {
+        if p.is_inf()? || q.is_inf()? {
+            // e(O, Q) = e(P, O) = 1; amcl yields the zero element of Fp12 for e(O, O)
+            return Self::new_unity();
+        }
         let mut result = fexp(&ate(&q.point, &p.point));
         result.reduce();
 
@@ -649,6 +653,13 @@ impl Pair {
 
     /// e(PointG1, PointG2, PointG1_1, PointG2_1)
     pub fn pair2(p: &PointG1, q: &PointG2, r: &PointG1, s: &PointG2) -> ClResult<Self> {
+        // a pairing with the identity contributes the factor 1
+        if p.is_inf()? || q.is_inf()? {
+            return Self::pair(r, s);
+        }
+        if r.is_inf()? || s.is_inf()? {
+            return Self::pair(p, q);
+        }
         let mut result = fexp(&ate2(&q.point, &p.point, &s.point, &r.point));
         result.reduce();
 
